@@ -189,4 +189,60 @@ theorem mem_overwriteWrites (C : Adj) (nodes1 nodes2 : List Nat) (w : Nat × Nat
 /-- no duplicates, in index form -/
 def NodupIdx (L : List Nat) : Prop := ∀ (i i' x : Nat), L[i]? = some x → L[i']? = some x → i = i'
 
+
+theorem rsum_sub (f g : Nat → Int) (n : Nat) :
+    rsum (fun j => f j - g j) n = rsum f n - rsum g n := by
+  induction n with
+  | zero => rfl
+  | succ n ih => simp only [rsum, ih]; omega
+
+theorem rsum_shift (f : Nat → Int) (n : Nat) :
+    rsum f (n + 1) = f 0 + rsum (fun j => f (j + 1)) n := by
+  induction n with
+  | zero => simp [rsum]
+  | succ n ih => rw [rsum, ih]; simp only [rsum]; omega
+
+/-- a function supported on a duplicate-free list of indices `< N` sums over the list -/
+theorem rsum_support (L : List Nat) (N : Nat) (nd : NodupIdx L) (hb : ∀ x ∈ L, x < N)
+    (h : Nat → Int) (hs : ∀ w, w ∉ L → h w = 0) :
+    rsum h N = rsum (fun j => h (L.getD j 0)) L.length := by
+  induction L generalizing h with
+  | nil =>
+    have : rsum h N = rsum (fun _ => 0) N := rsum_congr N fun j _ => hs j (by simp)
+    rw [this, rsum_zero]; rfl
+  | cons x L ih =>
+    have hx : x ∉ L := by
+      intro hm
+      obtain ⟨i, hi⟩ := List.getElem?_of_mem hm
+      have := nd (i + 1) 0 x (by simpa using hi) (by simp)
+      omega
+    have nd' : NodupIdx L := by
+      intro i i' y h1 h2
+      have := nd (i + 1) (i' + 1) y (by simpa using h1) (by simpa using h2)
+      omega
+    have key := ih nd' (fun y hy => hb y (by simp [hy])) (fun w => if w = x then 0 else h w)
+      (fun w hw => by
+        by_cases hwx : w = x
+        · simp [hwx]
+        · simp only [hwx, if_false]; exact hs w (by simp [hwx, hw]))
+    rw [rsum_upd] at key
+    have hxN : x < N := hb x (by simp)
+    simp only [hxN, if_true] at key
+    have e2 : rsum (fun j => if L.getD j 0 = x then 0 else h (L.getD j 0)) L.length
+        = rsum (fun j => h (L.getD j 0)) L.length := by
+      apply rsum_congr; intro j hj
+      have : L.getD j 0 ∈ L := by
+        rw [List.getD_eq_getElem?_getD, List.getElem?_eq_getElem hj]; simp
+      have : L.getD j 0 ≠ x := fun hh => hx (hh ▸ this)
+      show (if L.getD j 0 = x then 0 else h (L.getD j 0)) = h (L.getD j 0)
+      rw [if_neg this]
+    rw [e2] at key
+    rw [List.length_cons, rsum_shift]
+    simp only [List.getD_cons_zero, List.getD_cons_succ]
+    omega
+
+
+theorem getD_of_getElem? (L : List Nat) (j x : Nat) (h : L[j]? = some x) : L.getD j 0 = x := by
+  rw [List.getD_eq_getElem?_getD, h]; rfl
+
 end Pyunicorn.Random
